@@ -413,6 +413,29 @@ impl<'a, 'tcx> Cx<'a, 'tcx> {
                 ConstValue::Scalar(sc) => {
                     if let Ok(si) = sc.try_to_scalar_int() {
                         val = Some(format!("{}", si.to_bits_unchecked()));
+                    } else if let rustc_middle::mir::interpret::Scalar::Ptr(ptr, _) = sc {
+                        // thin reference to a byte array (e.g. format_args! templates): emit the bytes
+                        if let ty::Ref(_, inner, _) = ty.kind() {
+                            if let ty::Array(e, n) = inner.kind() {
+                                if matches!(e.kind(), ty::Uint(ty::UintTy::U8)) {
+                                    if let Some(len) = n.try_to_target_usize(tcx) {
+                                        let (prov, off) = ptr.prov_and_relative_offset();
+                                        if let Some(rustc_middle::mir::interpret::GlobalAlloc::Memory(alloc)) =
+                                            tcx.try_get_global_alloc(prov.alloc_id())
+                                        {
+                                            let start = off.bytes() as usize;
+                                            let len = len as usize;
+                                            if len <= 256 && start + len <= alloc.inner().len() {
+                                                let bytes = alloc
+                                                    .inner()
+                                                    .inspect_with_uninit_and_ptr_outside_interpreter(start..start + len);
+                                                val = Some(arr(&bytes.iter().map(|b| b.to_string()).collect::<Vec<_>>()));
+                                            }
+                                        }
+                                    }
+                                }
+                            }
+                        }
                     }
                 }
                 ConstValue::Slice { .. } => {
@@ -434,6 +457,9 @@ impl<'a, 'tcx> Cx<'a, 'tcx> {
             Const::Ty(_, ct) => {
                 if let Some(v) = ct.try_to_target_usize(tcx) {
                     val = Some(v.to_string());
+                } else if let Some(si) = c.try_eval_scalar_int(tcx, self.env) {
+                    val = Some(format!("{}", si.to_bits_unchecked()));
+                    def = Some(format!("{:?}", ct));
                 } else {
                     def = Some(format!("{:?}", ct));
                 }
